@@ -284,13 +284,7 @@ struct pool_policy
                 t.fail("M-counters", "next-block-size",
                        fmt("arena announced a next block of %zu usable bytes but requested %u bytes upstream", before.next_block, b.size));
             std::size_t gained = after.cap + taken - before.cap;
-            if (!std::is_same<list_t, fm::detail::small_free_memory_list>::value)
-            {
-                if (gained * before.list_ns != before.nextcap)
-                    t.fail("M-counters", "next-capacity",
-                           fmt("next_capacity() promised %zu bytes, growth added %zu nodes of %zu", before.nextcap, gained, before.list_ns));
-            }
-            else if (gained * before.list_ns > before.nextcap)
+            if (gained * before.list_ns != before.nextcap)
                 t.fail("M-counters", "next-capacity",
                        fmt("next_capacity() promised %zu bytes, growth added %zu nodes of %zu", before.nextcap, gained, before.list_ns));
             if (r.kind == 0 && !before.list_empty)
